@@ -1,7 +1,8 @@
 (** C16 — the worker's FIFO weighted CPU semaphore is safe, FIFO and live.
     Property theorems only; every statement quantifies over ALL action lists (arbitrary interleavings of
     acquire / release / event-loop settling by any number of jobs).  Model: SemFifo/Model.v. *)
-From HailV Require Import Common.Prelude SemFifo.Model SemFifo.Lemmas.
+From HailV Require Import Common.Prelude SemFifo.Model SemFifo.Lemmas SemFifo.Use SemFifo.LemmasUse.
+From HailG Require C16.Gen.
 Open Scope Z_scope.
 
 (** Exact accounting: free value + weights granted and not yet released = capacity (no assumption at all). *)
@@ -73,3 +74,60 @@ Theorem C16_no_deadlock : forall (cap : Z) (acts : list action),
   held (run cap acts) = [] -> queue (run cap acts) = [].
 Proof. exact no_deadlock. Qed.
 Print Assumptions C16_no_deadlock.
+
+(** * The worker's USE of the semaphore (batch/batch/worker/worker.py), with task cancellation at every await point
+
+    Model: SemFifo/Use.v — job task = acquire ; body ; release, driven by Spawn / Finish / Cancel / USettle with asyncio's
+    ready queue and cancellation semantics; the reservation pattern of every use site ([C16.Gen.use_sites]) is regenerated
+    from worker.py + semaphore.py on every run.  All statements: every capacity, every action list (any number of jobs,
+    cancellations anywhere: before the first step, queued at the head or behind others, granted but not resumed, inside the
+    body, after the end), and any number [n] of further single task steps, i.e. at every await point. *)
+
+(** Every use site acquires BEFORE entering the release guard. *)
+Theorem C16_use_sites_release_only_after_acquire :
+  C16.Gen.use_sites <> [] /\ forall p, In p C16.Gen.use_sites -> p = AcquireThenTry.
+Proof. split; [discriminate | exact gen_use_site_pattern]. Qed.
+Print Assumptions C16_use_sites_release_only_after_acquire.
+
+(** The capacity theorem at the worker: the jobs inside their bodies never weigh more than the capacity. *)
+Theorem C16_use_capacity : forall (p : pattern) (cap : Z) (acts : list uaction) (n : nat),
+  In p C16.Gen.use_sites -> 0 <= cap -> Forall (fun w => 0 <= w) (spawn_weights acts) ->
+  running (ticks p n (urun p cap acts)) <= cap.
+Proof. intros p cap acts n Hp. rewrite (gen_use_site_pattern p Hp). apply use_capacity. Qed.
+Print Assumptions C16_use_capacity.
+
+(** Grants and releases match: nothing is ever released that was not acquired; free value + weights of running jobs +
+    weights granted to jobs that have not resumed yet + weights granted to tasks that died inside acquire = capacity;
+    every grant has been released exactly once, or is still held by a running / resuming job, or went to a task that was
+    cancelled inside acquire. *)
+Theorem C16_use_grants_match_releases : forall (p : pattern) (cap : Z) (acts : list uaction) (n : nat),
+  In p C16.Gen.use_sites -> 0 <= cap -> Forall (fun w => 0 <= w) (spawn_weights acts) ->
+  let s := ticks p n (urun p cap acts) in
+  u_value s + running s + zsum snd (u_woken s) + u_leaked s = cap /\
+  0 <= u_value s /\ 0 <= zsum snd (u_woken s) /\ 0 <= u_leaked s /\
+  u_bogus s = [] /\
+  (u_grants s = u_releases s + length (u_body s) + length (u_woken s) + u_leaks s)%nat.
+Proof. intros p cap acts n Hp. rewrite (gen_use_site_pattern p Hp). apply use_accounting. Qed.
+Print Assumptions C16_use_grants_match_releases.
+
+(** The model discriminates: with the acquire INSIDE the guarded block a cancelled waiter releases what it never acquired
+    and the capacity is exceeded. *)
+Theorem C16_use_acquire_inside_guard_unsafe : exists (cap : Z) (acts : list uaction),
+  0 <= cap /\ Forall (fun w => 0 <= w) (spawn_weights acts) /\ cap < running (urun AcquireInTry cap acts).
+Proof.
+  exists 1, [Spawn 1; Spawn 1; Spawn 1; USettle; Cancel 2; USettle]. rewrite in_try_overgrants.
+  split; [lia|]. split; [repeat constructor; lia | lia].
+Qed.
+Print Assumptions C16_use_acquire_inside_guard_unsafe.
+
+(** Limit of the statement (faithful model of the current code): a waiter cancelled while queued leaves its entry in the
+    deque; the weight later granted to that entry is never given back.  Cancellation can only LOSE capacity. *)
+Theorem C16_use_cancelled_waiter_loses_capacity : exists (cap : Z) (acts : list uaction),
+  let s := urun AcquireThenTry cap acts in
+  u_body s = [] /\ u_wait s = [] /\ u_woken s = [] /\ u_fresh s = [] /\ u_value s < cap /\ u_leaked s = cap - u_value s.
+Proof.
+  exists 1, [Spawn 1; Spawn 1; USettle; Cancel 1; USettle; Finish 0; USettle].
+  destruct cancelled_waiter_leaks as (Hv & Hb & Hw & Hk & Hf & Hl). cbv zeta. rewrite Hv, Hb, Hw, Hk, Hf, Hl.
+  repeat split; lia.
+Qed.
+Print Assumptions C16_use_cancelled_waiter_loses_capacity.
